@@ -356,6 +356,13 @@ fn view(obs: &Value) -> View {
     View { una, n, probe_out, yielded: y.len() as i64, seqs: y.iter().map(|it| int(&it[0])).collect() }
 }
 
+/// Any sequence number, except the one exactly half the sequence space away from snd_una: its order relative
+/// to snd_una is ambiguous in 16-bit arithmetic (C09) and the queue is never asked about it.
+fn any_seq(r: &mut Rng, una: i64) -> i64 {
+    let s = r.below(65536) as i64;
+    if (s - una).rem_euclid(65536) == 32768 { (s + 1).rem_euclid(65536) } else { s }
+}
+
 fn pick_sack(r: &mut Rng, v: &View, ack: i64) -> Value {
     let len = match r.below(12) {
         0 => 0usize,
@@ -472,7 +479,7 @@ fn record(seed: u64, n: usize, path: &str) {
                             4 => (v.una - 1 - r.below(3) as i64).rem_euclid(65536),
                             5 => (v.una + r.below(v.n as u64 + 2) as i64).rem_euclid(65536),
                             6 => (v.una + v.n - 1).rem_euclid(65536),
-                            _ => r.below(65536) as i64,
+                            _ => any_seq(&mut r, v.una),
                         };
                         let m = v.yielded.clamp(1, 30) as u64;
                         let mask: i64 = match r.below(5) {
@@ -491,7 +498,7 @@ fn record(seed: u64, n: usize, path: &str) {
                             15..=16 => v.una + r.below(v.n as u64 + 1) as i64,
                             17 => v.una + 1000,
                             18 => v.una - 1000,
-                            _ => r.below(65536) as i64,
+                            _ => any_seq(&mut r, v.una),
                         }
                         .rem_euclid(65536);
                         if r.below(5) < 2 {
@@ -506,7 +513,7 @@ fn record(seed: u64, n: usize, path: &str) {
                             0..=4 => last,
                             5 => last - 1,
                             6 => last + 1,
-                            _ => r.below(65536) as i64,
+                            _ => any_seq(&mut r, v.una),
                         }
                         .rem_euclid(65536);
                         json!(["p", s])
